@@ -23,11 +23,13 @@ Definition e2e_split (case: list N) : option (N * N * N * list N * list (handler
       | _ => None end
   | _ => None
   end.
-(* which decoder reads the packet (there is at most one: C12) *)
+(* the event a packet carries: decoded by the decoder of the kind its event code names *)
 Definition classify (p: packet) : list N :=
-  match filter (fun k => match decode k p with Val _ => true | _ => false end) all_kinds with
-  | [k] => match decode k p with Val e => event_fields e | _ => [255] end
-  | _ => [255]
+  match code_of p with
+  | Some c => match kind_of_code c with
+              | Some k => match decode k p with Val e => event_fields e | _ => [255] end
+              | None => [255] end
+  | None => [255]
   end.
 Definition show_elog (l: list logent) : list N :=
   nlen l :: concat (map (fun e => let v := fst (fst e) :: snd (fst e) :: show_packet (snd e) ++ classify (snd e) in nlen v :: v) l).
